@@ -16,8 +16,8 @@ RULE = ("formulas over plain names, quoted names, nested calls, attribute access
         "or extend the data and the built-in transforms in all 7 overlap patterns; '.' with and without a left-hand side; for each reported variable: "
         "remove it and rebuild; non-trivial = at least two variables or a shadowed name; distinct by (formula, layers)")
 EXPLANATION = ("Coq: in the three-layer context (data, context, transforms) a name resolves to the first layer holding it and the reported source is that "
-               "layer; '.' is exactly the available variables not used on the lhs, in order; for formulas of looked-up names every name is sufficient "
-               "and necessary for factor evaluation in the build model. The layered-mapping model, the parser model ('.') and the build model (missing "
+               "layer; '.' is exactly the available variables not used on the lhs, in order; for formulas of looked-up names the reported list of names (required_vars, compared with "
+               "Formula.required_variables case by case) is sufficient on the restricted data and each entry necessary, for single and structured formulas. The layered-mapping model, the parser model ('.') and the build model (missing "
                "variables) are evaluated in Coq on the implementation's cases; sufficiency/necessity, sources and '.' are checked directly, including "
                "Python-expression factors.")
 TRUSTED = ["Python expressions: which names a fragment needs is decided by CPython evaluation; required_variables for them is validated by actually "
@@ -275,6 +275,51 @@ def _missing_stream(ctx: Ctx):
     ctx.run_cases("missing", M.IMPORTS, "", "mcase", "chk_build", lits, descr, shard=150)
 
 
+def _required_stream(ctx: Ctx):
+    """required_vars model: the names the model lists for a term list are the names Formula.required_variables reports (before and after
+    materialization), and on the implementation they are sufficient and, one by one, necessary (the theorems' statement, replayed)"""
+    import pandas as pd
+    from formulaic import model_matrix
+    from formulaic.errors import FactorEvaluationError
+    warnings.simplefilter("ignore")
+    rng = ctx.fork("requiredvars")
+    lits, descr = [], []
+    for i in range(ctx.n(150, 2000)):
+        frame = M.gen_frame(rng, pnull=0)
+        terms = M.dedupe(M.gen_terms(rng, missing_p=0))
+        f = M.formula_of(terms)
+        rp = {"kind": "required-vars", "terms": terms}
+        ctx.oracle_runs += 1
+        try:
+            req = sorted({str(v) for v in f.required_variables})
+        except Exception as e:
+            ctx.fail(f"required_variables of {terms!r}: {type(e).__name__}: {e}", rp)
+            continue
+        ctx.count("requiredvars", f"n={len(req)}")
+        lits.append("{| r_terms := %s; r_names := %s |}" % (M.terms_coq(terms), clist(cstr(v) for v in req)))
+        descr.append({"terms": terms, "implementation": req})
+        df = frame.to_pandas()
+        if not req:
+            continue
+        try:
+            mm = model_matrix(f, df[req], context={})
+            after = sorted({str(v) for v in mm.model_spec.required_variables})
+            if after != req:
+                ctx.fail(f"the spec of {terms!r} requires {after} after materialization; the formula reported {req}", rp)
+        except Exception as e:
+            ctx.fail(f"required variables {req} are not sufficient for {terms!r}: {type(e).__name__}: {e}", rp)
+            continue
+        for v in req:
+            try:
+                model_matrix(f, df[[c for c in req if c != v]], context={})
+                ctx.fail(f"{v!r} is reported as required by {terms!r} but materialization succeeds without it", rp)
+            except FactorEvaluationError:
+                pass
+            except Exception as e:
+                ctx.fail(f"removing {v!r} from the data of {terms!r} fails with {type(e).__name__} instead of the factor-evaluation error", rp)
+    ctx.run_cases("required", M.IMPORTS, "", "rcase", "chk_required", lits, descr, shard=200)
+
+
 def _mutated_formulas(ctx: Ctx):
     """required_variables describes the formula AS IT IS NOW: after any sequence of deletions, insertions and replacements of terms it equals
     what a fresh formula with the same terms reports (also through a ModelSpec holding the formula)"""
@@ -319,6 +364,7 @@ def run(ctx: Ctx):
     _resolution_stream(ctx)
     _dot_stream(ctx)
     _missing_stream(ctx)
+    _required_stream(ctx)
     _required_oracle(ctx)
     _shadow_oracle(ctx)
 
